@@ -203,6 +203,10 @@ class Interp(MiniEval):
         if isinstance(base, Obj):
             if base.has(attr):
                 return base.get(attr)
+            if base.has('__isa__') and 're.Pattern' in base.get('__isa__') and f're.Pattern.{attr}' in self.stubs:
+                # applying a compiled regex is never interpreted: the caller supplies the abstract matcher
+                hook = self.stubs[f're.Pattern.{attr}']
+                return lambda *a, **kw: hook(base, *a, **kw)
             cq = object.__getattribute__(base, '_cls')
             if cq:
                 mq = self.src.find_method(cq, attr)
